@@ -17,8 +17,11 @@ impl AsciiString {
 pub struct FromAsciiError<B> { b: B }
 pub open spec fn ascii_to_bytes(s: Seq<char>) -> Seq<u8> { s.map_values(|c: char| c as u8) }
 pub open spec fn all_ascii(s: Seq<u8>) -> bool { forall|i: int| 0 <= i < s.len() ==> #[trigger] s[i] < 128 }
-/// the bytes a `B: Into<Vec<u8>> + AsRef<[u8]>` stands for
+/// the bytes a `B: Into<Vec<u8>> + AsRef<[u8]>` stands for, and the same as characters
 pub uninterp spec fn bytes_of<B>(b: B) -> Seq<u8>;
+pub uninterp spec fn chars_of<B>(b: B) -> Seq<char>;
+pub broadcast axiom fn axiom_chars_of_str(s: &str)
+    ensures #[trigger] chars_of::<&str>(s) == s@;
 pub broadcast axiom fn axiom_bytes_of_vec(v: Vec<u8>)
     ensures #[trigger] bytes_of::<Vec<u8>>(v) == v@;
 impl AsciiString {
@@ -26,7 +29,7 @@ impl AsciiString {
     #[verifier::external_body]
     pub fn from_ascii<B>(bytes: B) -> (r: Result<AsciiString, FromAsciiError<B>>)
         ensures match r {
-            Ok(a) => all_ascii(bytes_of(bytes)) && ascii_to_bytes(a@) == bytes_of(bytes),
+            Ok(a) => all_ascii(bytes_of(bytes)) && ascii_to_bytes(a@) == bytes_of(bytes) && a@ == chars_of(bytes),
             Err(_) => !all_ascii(bytes_of(bytes)),
         }
     { unimplemented!() }
